@@ -438,7 +438,7 @@ impl Check for CompCheck {
         "C13/components".into()
     }
     fn classes(&self) -> &'static [&'static str] {
-        &["population>=2 and dim>=3", "rate 0", "rate 1", "crossover", "odd population", "permutation operator", "DE operator", "empty population", "non-default identifier", "non-default identifier next to a default-identified instance with another rate", "DE crossover on populations of different sizes", "a second instance with the same identifier and other parameters was initialised before", "rate state adapted after initialisation (constructed with the opposite rate)"]
+        &["population>=2 and dim>=3", "rate 0", "rate 1", "crossover", "odd population", "permutation operator", "DE operator", "empty population", "non-default identifier", "non-default identifier next to a default-identified instance with another rate", "DE crossover on populations of different sizes", "a second instance with the same identifier and other parameters was initialised before", "rate state adapted after initialisation (constructed with the opposite rate)", "the generator first replays a script of edge-value words (derived from the seed)"]
     }
     fn oracle(&self, c: &CompCase) -> Outcome {
         let mut cl = 0;
@@ -524,6 +524,13 @@ fn gene_single_ambiguous<T: PartialEq>(_p1: &[T], _p2: &[T]) -> bool {
 }
 
 fn comp_oracle(c: &CompCase, cl: &mut u64) -> Result<(), Failure> {
+    // every operator case but the identifier-generic ones (whose rate-1 oracle relies on continuous draws): one seed in
+    // four runs with a generator that first replays a script of edge-value words
+    if let CompCase::Real { seed, .. } | CompCase::Bits { seed, .. } | CompCase::Perm { seed, .. } = c {
+        if !crate::fixtures::script_of(*seed).is_empty() {
+            *cl |= 8192;
+        }
+    }
     let r = comp_oracle_inner(c, cl);
     match r {
         Err(f) if f.sig == "skip" => Ok(()),
@@ -566,7 +573,7 @@ fn comp_oracle_inner(c: &CompCase, cl: &mut u64) -> Result<(), Failure> {
                     if !is_normal && dev <= 0.0 {
                         // a non-positive bound is outside the operator's domain: it must be reported as an error, not a panic
                         let comp = UniformMutation::new::<RealP>(dev, rm);
-                        let mut st = state_with(vec![inds(&pop)], *seed);
+                        let mut st = crate::fixtures::state_with_scripted(vec![inds(&pop)], *seed);
                         let r = catch(|| {
                             comp.init(&problem, &mut st)?;
                             comp.execute(&problem, &mut st)
@@ -575,7 +582,7 @@ fn comp_oracle_inner(c: &CompCase, cl: &mut u64) -> Result<(), Failure> {
                         return Ok(());
                     }
                     let comp: Box<dyn Component<RealP>> = if is_normal { NormalMutation::new(dev, rm) } else { UniformMutation::new(dev, rm) };
-                    let mut st = state_with(vec![vec![], inds(&pop)], *seed);
+                    let mut st = crate::fixtures::state_with_scripted(vec![vec![], inds(&pop)], *seed);
                     run_comp(comp.as_ref(), &problem, &mut st, name, &at)?;
                     let after = stack_solutions(&st);
                     ensure_that!(after.len() == 2 && after[0].is_empty(), format!("C13 {name} stack"), "{at}: stack changed shape");
@@ -597,7 +604,7 @@ fn comp_oracle_inner(c: &CompCase, cl: &mut u64) -> Result<(), Failure> {
                     let rm = rm.f();
                     rate_class(rm, cl);
                     let comp = PartialRandomSpread::new::<RealP>(rm);
-                    let mut st = state_with(vec![inds(&pop)], *seed);
+                    let mut st = crate::fixtures::state_with_scripted(vec![inds(&pop)], *seed);
                     run_comp(comp.as_ref(), &problem, &mut st, "PartialRandomSpread", &at)?;
                     let got = &stack_solutions(&st)[0];
                     ensure_that!(got.len() == n && got.iter().all(|s| s.len() == dim), "C13 PartialRandomSpread changes size or dimension", "{at}: got {got:?}");
@@ -631,7 +638,7 @@ fn comp_oracle_inner(c: &CompCase, cl: &mut u64) -> Result<(), Failure> {
                         RealOp::UniformX { .. } => ("UniformCrossover", UniformCrossover::new::<RealP, f64>(pc, *both)),
                         _ => ("ArithmeticCrossover", ArithmeticCrossover::new::<RealP>(pc, *both)),
                     };
-                    let mut st = state_with(vec![inds(&pop)], *seed);
+                    let mut st = crate::fixtures::state_with_scripted(vec![inds(&pop)], *seed);
                     run_comp(comp.as_ref(), &problem, &mut st, name, &at)?;
                     let after = stack_solutions(&st);
                     ensure_that!(after.len() == 1, format!("C13 {name} stack"), "{at}: stack height {}", after.len());
@@ -671,7 +678,7 @@ fn comp_oracle_inner(c: &CompCase, cl: &mut u64) -> Result<(), Failure> {
                         Ok(c) => c,
                         Err(e) => fail!("C13 DEMutation rejects documented parameters", "{at}: {e}"),
                     };
-                    let mut st = state_with(vec![inds(&layout)], *seed);
+                    let mut st = crate::fixtures::state_with_scripted(vec![inds(&layout)], *seed);
                     let at = format!("{op:?} on layout {layout:?}");
                     run_comp(comp.as_ref(), &problem, &mut st, "DEMutation", &at)?;
                     let got = &stack_solutions(&st)[0];
@@ -688,7 +695,7 @@ fn comp_oracle_inner(c: &CompCase, cl: &mut u64) -> Result<(), Failure> {
                     }
                     // a population that is not in the layout must be rejected
                     if block > 1 {
-                        let mut st = state_with(vec![inds(&layout[..layout.len() - 1].to_vec())], *seed);
+                        let mut st = crate::fixtures::state_with_scripted(vec![inds(&layout[..layout.len() - 1].to_vec())], *seed);
                         let r = catch(|| comp.execute(&problem, &mut st));
                         ensure_that!(matches!(r, Ok(Err(_))), "C13 DEMutation accepts a malformed layout", "{at}: population of {} individuals (not a multiple of {block}) gave {:?}", layout.len() - 1, r.map(|x| x.is_ok()));
                     }
@@ -713,7 +720,7 @@ fn comp_oracle_inner(c: &CompCase, cl: &mut u64) -> Result<(), Failure> {
                         *cl |= 1024;
                     }
                     let m = mutants.len();
-                    let mut st = state_with(vec![inds(&pop), inds(&mutants)], *seed);
+                    let mut st = crate::fixtures::state_with_scripted(vec![inds(&pop), inds(&mutants)], *seed);
                     run_comp(comp.as_ref(), &problem, &mut st, name, &at)?;
                     let after = stack_solutions(&st);
                     ensure_that!(after.len() == 2 && after[0] == pop, format!("C13 {name} stack"), "{at}: base population changed or stack height {}", after.len());
@@ -754,7 +761,7 @@ fn comp_oracle_inner(c: &CompCase, cl: &mut u64) -> Result<(), Failure> {
                 BitOp::BitFlip { rm } => {
                     let rm = rm.f();
                     let comp = BitFlipMutation::new::<BitsP>(rm);
-                    let mut st = state_with(vec![inds(&pop)], *seed);
+                    let mut st = crate::fixtures::state_with_scripted(vec![inds(&pop)], *seed);
                     run_comp(comp.as_ref(), &problem, &mut st, "BitFlipMutation", &at)?;
                     let got = &stack_solutions(&st)[0];
                     ensure_that!(got.len() == n && got.iter().all(|s| s.len() == dim), "C13 BitFlipMutation changes size or dimension", "{at}");
@@ -771,7 +778,7 @@ fn comp_oracle_inner(c: &CompCase, cl: &mut u64) -> Result<(), Failure> {
                 BitOp::RandomBits { p, rm } => {
                     let (p, rm) = (p.f(), rm.f());
                     let comp = PartialRandomBitstring::new::<BitsP>(p, rm);
-                    let mut st = state_with(vec![inds(&pop)], *seed);
+                    let mut st = crate::fixtures::state_with_scripted(vec![inds(&pop)], *seed);
                     run_comp(comp.as_ref(), &problem, &mut st, "PartialRandomBitstring", &at)?;
                     let got = &stack_solutions(&st)[0];
                     ensure_that!(got.len() == n && got.iter().all(|s| s.len() == dim), "C13 PartialRandomBitstring changes size or dimension", "{at}");
@@ -791,7 +798,7 @@ fn comp_oracle_inner(c: &CompCase, cl: &mut u64) -> Result<(), Failure> {
                     }
                     let pc = pc.f();
                     let comp = NPointCrossover::new::<BitsP, bool>(1 + cuts % (dim - 1), pc, *both);
-                    let mut st = state_with(vec![inds(&pop)], *seed);
+                    let mut st = crate::fixtures::state_with_scripted(vec![inds(&pop)], *seed);
                     run_comp(comp.as_ref(), &problem, &mut st, "NPointCrossover", &at)?;
                     let got = &stack_solutions(&st)[0];
                     offspring_count(n, pc, *both, got.len(), "NPointCrossover", &at)?;
@@ -804,7 +811,7 @@ fn comp_oracle_inner(c: &CompCase, cl: &mut u64) -> Result<(), Failure> {
                     *cl |= 8;
                     let pc = pc.f();
                     let comp = UniformCrossover::new::<BitsP, bool>(pc, *both);
-                    let mut st = state_with(vec![inds(&pop)], *seed);
+                    let mut st = crate::fixtures::state_with_scripted(vec![inds(&pop)], *seed);
                     run_comp(comp.as_ref(), &problem, &mut st, "UniformCrossover", &at)?;
                     let got = &stack_solutions(&st)[0];
                     offspring_count(n, pc, *both, got.len(), "UniformCrossover", &at)?;
